@@ -844,7 +844,23 @@ pub fn run_check(tier: &str) -> i32 {
         stub: "CNB lifecycle (directory layout, phase invocation), buildpack author code (scripted)",
         needs_shim_in_worker: false,
     };
-    common::run_check(&spec, tier, &|_, _| {})
+    // second class: the error protocol when a file-system call of a passing detect / succeeding
+    // build fails (every call position x 3 errnos for each sampled scenario)
+    common::run_check(&spec, tier, &|_, ev| {
+        let pf = super::faults::run_phase_faults_for(tier, "C05");
+        for l in &pf.lines {
+            println!("{l}");
+        }
+        ev.cov(
+            "error_protocol_under_injected_faults",
+            serde_json::json!({
+                "scenarios": pf.scenarios, "process_runs": pf.executions, "faults_fired": pf.fired,
+                "by_libc_call": pf.fired_by_call, "exited_nonzero": pf.outcome_err, "exited_zero": pf.outcome_ok_same,
+                "rule": "for each sampled well-formed invocation whose phase succeeds, every k-th file-system call beneath its world fails once with EIO, EACCES and ENOSPC: never exit 100, handler at most once, exactly once if detect/build code ran and the exit is non-zero, never exit 0 after the handler ran",
+            }),
+        );
+        pf.violations as i64
+    })
 }
 
 // keep the TVal import used for metadata generation in sibling modules
